@@ -46,12 +46,15 @@ finally:
 dst = "/verif/seeded/%s/%s" % (pid, name)
 os.makedirs(dst, exist_ok=True)
 for f in ("patch.diff", "demo.py"):
-    shutil.copy(os.path.join(src, f), os.path.join(dst, f))
+    if os.path.abspath(src) != os.path.abspath(dst):
+        shutil.copy(os.path.join(src, f), os.path.join(dst, f))
 try:
     meta = json.load(open(os.path.join(src, "meta.json")))
 except Exception:
     meta = {}
 meta["property"] = pid
+if "confirmed" in meta and meta["confirmed"] != res:
+    meta.setdefault("earlier_runs", []).append(meta["confirmed"])
 meta["confirmed"] = res
 meta["what_was_run"] = ("scratch worktree of /repo HEAD; demo.py on clean tree (must exit 0) and with patch.diff applied (must exit !=0); "
                         "tools/suite.py (131 stable_pass tests); VERIF_REPO=<worktree> ./check %s --tier quick" % pid)
